@@ -289,6 +289,7 @@ def run_doc(mon, base, idx, kind, req, intent, sh):
             f.write("".join("stale_key_%d = \"left over from an earlier, longer document\"\n" % i for i in range(120)))
     rep = mon.call(req)
     sh.evaluations += 1
+    sh.count("route_" + kind)
     if "input_rejected" in rep:
         sh.count("inputs_rejected_by_constructors")
         return
@@ -386,6 +387,7 @@ def run_execd(base, idx, r, sh):
     req = json.dumps({"pairs": [[k, v] for k, v in pairs.items()]})
     p = subprocess.run(["sh", "-c", 'exec "$0" execd "$1" 3>"$2"', os.path.join(vp.BIN, "vpmon"), req, out], stdout=subprocess.PIPE, stderr=subprocess.PIPE)
     sh.evaluations += 1
+    sh.count("route_execd")
     case = {"kind": "execd", "pairs": pairs}
     raw = open(out, "rb").read() if os.path.exists(out) else b""
     if os.path.exists(out):
@@ -436,6 +438,7 @@ def run_layer_api(lmon, base, idx, r, sh):
                 sh.violation("layer-api:error", "layer request failed: %s" % rep["detail"][:200], {"kind": "layer-api", "steps": steps})
                 return
         sh.evaluations += 1
+        sh.count("route_layer_api")
         raw = open(os.path.join(root, "layers", L + ".toml"), "rb").read()
         sib = os.path.join(root, "layers", L + ".more.toml")
         if not os.path.exists(sib) or open(sib).read() != sibling_doc:
@@ -502,6 +505,7 @@ def run_runtime_store(base, idx, r, sh):
         script = {"build": {"result": "ok", "launch": None, "store": tomlw.tagged(store), "build_sboms": [], "launch_sboms": []}}
         st, marker, err = lay.run("build", lay.build_args(), lay.env(), script)
         sh.evaluations += 1
+        sh.count("route_runtime_store")
         case = {"kind": "runtime-store", "store": store}
         p = os.path.join(lay.layers, "store.toml")
         if st != 0 or not os.path.exists(p):
@@ -546,8 +550,7 @@ def shard_run(arg):
                 run_runtime_store(base, idx, r, sh)
                 continue
             if kind == "execd":
-                if idx % 5 == 0:
-                    run_execd(base, idx, r, sh)
+                run_execd(base, idx, r, sh)
                 continue
             req, intent = GENS[kind](r)
             run_doc(mon, base, idx, kind, req, intent, sh)
@@ -563,6 +566,7 @@ def run(tier, seed, work):
     n = 16000 if tier == "quick" else 480000
     for d in vp.pmap(shard_run, [(seed, s, work) for s in vp.split(range(n), vp.NCPU)]):
         res.merge(d)
+    res.required = ["route_launch", "route_build_plan", "route_layer_toml", "route_store", "route_package", "route_execd", "route_layer_api", "route_runtime_store"]
     res.rule = ("evaluations = documents written by libcnb and read by tomllib + a spec reader. distinct_nontrivial = distinct (document type, optional parts present, "
                 "or-group shape, string/value classes used [quote, backslash, control, newline, unicode, astral, empty, long, int, float, bool, datetime]) combinations")
     res.assumptions = ["the spec readers in tools/c07.py encode field names and defaults from the CNB buildpack spec (API 0.10: command is an array)",
